@@ -161,12 +161,22 @@ int f(int a, int c) { if (a) { if (c) { } else { } int t = a; t = t + 1; g = t; 
 P("empty_else_chain", "f", """
 int f(int a, int b) { int r = a; if (a > 0) { if (b > 0) { } } else { if (b < 0) { } else { } r = b; } return r; }
 """)
-P("store_extcall_load", "f", """
+
+# --- programs used by C02/C03 only (external functions that read/modify memory; pointers to locals handed to
+# externals): other checks iterate over PROGS and model externals differently ----------------------------
+PROGS_EXT = {}
+
+
+def PX(name, entry, src, ext=()):
+    PROGS_EXT[name] = (src, entry, list(ext))
+
+
+PX("store_extcall_load", "f", """
 int g;
 void ext2(int, int);
 int f(int a) { g = a; ext2(a, 1); int t = g; g = t + 1; ext2(t, 2); return g; }
 """, ext=("ext2",))
-P("local_escapes_to_ext", "f", """
+PX("local_escapes_to_ext", "f", """
 void ext3(int *);
 int f(int a) { int x = a; ext3(&x); int y = x; x = y + 1; ext3(&x); return x + y; }
 """, ext=("ext3",))
